@@ -33,7 +33,7 @@ CHECKS = {
    text="The evaluator is run on every position of an explorer walk and on all 59049 material signatures (0-2 of each non-king piece kind) x both sides to move, each together with its colour mirror and its side-swapped twin built by the oracle; the three values must satisfy the two symmetry equations.",
    ref="2/C17", note="Trusted base: the oracle's mirror construction and Board::from_fen (checked by C07). The material grid uses one fixed square arrangement per signature.", engine="explorer"),
  "C09": dict(tech="exhaustive enumeration of limit assignments (3^7) x deterministic interruption schedules (virtual clock expiring at the k-th limit check, stop at the k-th flag poll, every node budget 1..T) on the real Search code, plus bounded session enumeration on the real executable",
-   text="In-process, every assignment of the seven limit kinds (absent or one of two values, including 0 and 1) is combined with every schedule in {time never passes, clock expires at limit check k, stop lands at flag poll k} on each position, plus every node budget and every stop point of a depth-2 search consecutive searches on a kept cache and whole self-play games with the cache kept across positions; each run must return without panicking and log exactly one bestmove that is legal in the oracle's position. On the real executable the same assignments run with the real clock, up to three go per session each followed by isready, judged with a 2 s allowance.",
+   text="In-process, every assignment of the seven limit kinds (absent or one of two values, including 0 and 1) is combined with every schedule in {time never passes, clock expires at limit check k, stop lands at flag poll k} on each position, plus every node budget and every stop point of a depth-2 search consecutive searches on a kept cache and whole self-play games with the cache kept across positions; each run must return without panicking and log exactly one bestmove that is legal in the oracle's position. On the real executable the same assignments run with the real clock, up to three go per session each followed by isready, judged with a 5 s allowance.",
    ref="2/C09", note="""Trusted base: the hook runtime in src/rce_verif.rs (virtual clock, emulated stop, cache observer) and the assumption that it is the only source of time/stop nondeterminism in-process; single-threaded worker processes own their cache. Process-level timing uses loose wall-clock allowances.""", engine="cutpoints"),
  "C13": dict(tech="exhaustive enumeration of every interruption point of a search (every node budget 1..T, every stop poll, every clock check on both clock paths, also on a warmed cache) with a differential prefix oracle on the observed cache writes",
    text="For each (position, depth) pair under the node cap, the search is re-run once per possible interruption point; the cache writes seen by the observer hook in the interrupted run must be a prefix of those of the uninterrupted run from the same initial cache, and no write may happen once the cut condition holds (nodes >= budget, flag cleared, clock fired).",
@@ -42,10 +42,10 @@ CHECKS = {
    text="For each position every depth limit N (fresh and kept cache) must log info depth 1..N in order, each line valid UCI with a score and a non-empty PV that is legal move by move on the oracle, then exactly one bestmove; every node budget and clock point of a depth-3 search is checked for ordering, grammar and PV legality; whole self-play games (one go depth 4 per ply, cache kept across the positions of the game) are checked the same way, so stale cache entries of earlier searches are on the PV walk; go depth N is repeated on the real executable.",
    ref="2/C14", note="""Trusted base: the hook runtime in src/rce_verif.rs (virtual clock, emulated stop, cache observer) and the assumption that it is the only source of time/stop nondeterminism in-process; single-threaded worker processes own their cache. Mate-distance correctness is not demanded.""", engine="cutpoints"),
  "C15": dict(tech="exhaustive enumeration of all token strings up to length 4 (5 on a reduced alphabet) over the UCI vocabulary through the real parser and command loop, plus all sessions of <=2 (3) representative lines on the real executable ended by quit and by end-of-input",
-   text="Every token string up to the length bound is parsed by UCICommand::new under catch_unwind (a panic there kills the main thread) and a seventh of the non-search lines is executed through the real uci_loop; on the real executable every session of representative valid and malformed lines, each followed by isready, must answer readyok within 2 s and exit within 2 s of quit and of closed stdin.",
+   text="Every token string up to the length bound is parsed by UCICommand::new under catch_unwind (a panic there kills the main thread) and a seventh of the non-search lines is executed through the real uci_loop; on the real executable every session of representative valid and malformed lines, each followed by isready, must answer readyok within 5 s and exit within 5 s of quit and of closed stdin.",
    ref="2/C15", note="FEN contents are not fuzzed (the property assumes valid FEN). Search-thread panics are counted but not judged by this property.", engine="sessions"),
  "C10": dict(tech="stateless exploration of all merges of a GUI command script with the search thread's labelled steps on the real executable (blocking schedule points; deviation-bounded in quick, all merges in thorough), each schedule on a fresh process and replay-checked",
-   text="For seven command scripts every interleaving of the input thread's commands with the search thread's held points {enter, armed, first iteration done, before bestmove, after bestmove, exit} that respects the GUI protocol is executed on the real binary; per schedule every go must be answered by exactly one bestmove legal in the position it was given, a processed stop must bring the bestmove within 2 s, every isready a readyok, and nothing may be reported as refused. Quick: all schedules with <= 2 deviations from the default order; thorough: all of them.",
+   text="For seven command scripts every interleaving of the input thread's commands with the search thread's held points {enter, armed, first iteration done, before bestmove, after bestmove, exit} that respects the GUI protocol is executed on the real binary; per schedule every go must be answered by exactly one bestmove legal in the position it was given, a processed stop must bring the bestmove within 5 s, every isready a readyok, and nothing may be reported as refused. Quick: all schedules with <= 2 deviations from the default order; thorough: all of them.",
    ref="2/C10", note="Trusted base: the schedule-point hand-shake in src/rce_verif.rs and the controller. Interleavings finer than the labelled points are not explored; an unbounded search is kept at its first iteration boundary until a stop is sent (a stop mid-iteration is observationally the same: the flag is read only at polls).", engine="scheduler"),
  "C08": dict(tech="explicit-state exploration of game paths replayed through the real UCI command loop, exhaustive enumeration of the 20480-string coordinate-notation alphabet per sampled position, all single-move corruptions of each path, and all command sequences up to length 4 against a 1-variable session model; conformance sessions on the real executable",
    text="Every path of an explorer walk is sent as 'position fen F moves ...' (and 'position startpos moves ...') through the real uci_loop inside a session that already holds another position; the resulting session position must equal the oracle's position after those moves in every component, with the same key and repetition record as the game played move by move. For a subset of positions every from-to-suffix string is accepted exactly when legal; every single-move corruption of a path must leave the previous position in force; all 1555 sequences of <=4 commands over {position A, position B, B with an illegal move, position with en passant, ucinewgame, isready} must end in the model's position.",
